@@ -45,6 +45,18 @@ func init() {
 			sp.TapeCap = 400000
 		}
 	}
+	if sp, err := core.Lookup("C19"); err == nil {
+		sp.Extra = worldRun(WGen{Faults: true, Replicas2: true, ForceTwo: true, ShortQuiet: true, ReloadFault: true}, cyc.All(), "C19")
+		sp.ExtraEvery = 151
+		sp.Rule += "; every 151st run is a closed-loop world run with two replicas (real sidecars, faults) in which every cycle oracle of C01/C04/C05/C07/C08 is evaluated per replica"
+		sp.TapeCap = 400000
+	}
+	if sp, err := core.Lookup("C14"); err == nil {
+		sp.Extra = worldRun(WGen{Faults: true, ShortQuiet: true}, cyc.Which{}, "C14")
+		sp.ExtraEvery = 29
+		sp.Rule += "; every 29th run is a closed-loop world run: every runtimeinfo answer the coordinator obtains must equal the sums over the status map it obtained from the same shard in the same cycle (process = sum of totals, head >= sum of series and >= the Prometheus stub's head)"
+		sp.TapeCap = 400000
+	}
 	if sp, err := core.Lookup("C16"); err == nil {
 		sp.Extra = worldRun(WGen{ConfigFocus: true, ShortQuiet: true}, cyc.Which{}, "C16")
 		sp.ExtraEvery = 13
